@@ -9,7 +9,8 @@ ID = "C14"
 LEVEL = "exploration"
 RULE = ("Hypothesis draws variable lists (any mix and order of the seven variable types, 1..5 variables, sizes >= 1 "
         "incl. multi-variables and binary of size 1, distinct names; a permutation variable alone or mixed with "
-        "others) and positions (members, out-of-range and fractional vectors of matching dimension). Oracle: "
+        "others) and positions (members, out-of-range and fractional vectors of matching dimension, 1 coordinate in "
+        "20 NaN: such a coordinate is judged for membership of the corrected value only). Oracle: "
         "dimension = sum of sizes; get_bounds has one (lo,hi) per coordinate equal to the declaration, lo<=hi; "
         "empty/initial/corrected solutions have one coordinate per dimension and are members; correct_solution is "
         "coordinate-wise the owner's rule (checked against a stand-alone variable built from the same declaration); transform_solution has exactly the declared names as keys, in order, each "
@@ -60,10 +61,11 @@ def var_list(draw):
 @st.composite
 def coord_value(draw, spec):
     k = spec[0]
+    if k in ("c", "d") and draw(st.integers(0, 19)) == 0:
+        # an undefined coordinate: the owning variable's rule re-draws it inside its domain, so must the task
+        return c13.enc(float("nan"))
     if k == "c":
         v, _ = draw(c13.cont_value(spec[1], spec[2]))
-        if isinstance(v, float) and v != v:
-            v = spec[1]
         return c13.enc(v)
     if k == "d":
         v, _ = draw(c13.disc_value(spec[1]))
@@ -189,13 +191,17 @@ def laws(payload):
         except Exception as e:  # noqa: BLE001
             out.append((key("correct-raises"), f"correct_solution({x!r}): {type(e).__name__}: {e}"[:300]))
             continue
-        if not c13._eq(c, ci):
+        # coordinates that were NaN are re-drawn at random: they are judged for membership only
+        undefined = [isinstance(e, float) and e != e for e in x]
+        if len(c) != len(ci) or not all(u or c13._eq(a, b) for a, b, u in zip(c, ci, undefined)):
             out.append((key("initial-vs-correct"), f"initial_solution(x)={ci!r} != correct_solution(x)={c!r}"[:300]))
         bad = oracles.member(coords, c)
         if bad:
             out.append((key("correct-not-member"), f"correct_solution({x!r}) -> {c!r}: {bad}"[:300]))
             continue
         for j, (cj, xj, sp, own) in enumerate(zip(c, x, coords, flat_standalone)):
+            if undefined[j]:
+                continue
             exp_lib = own.correct(xj)
             if not c13._eq(cj, exp_lib):
                 out.append((key("correct-not-coordinatewise"),
